@@ -39,15 +39,16 @@ type runCase struct {
 	DefaultParams map[string]string // nil: no default parameters
 	Concurrency   int
 	PreSleepUs    []int         // per body (cyclic): sleep before read-start
-	Cut           string        // "" | "max-duration" | "cancel": the run is cut short inside the plan
+	Cut           string        // "" | "max-duration" | "cancel" | "max-iterations": the run is cut short inside the plan
 	CutAfter      time.Duration // where
+	Limit         uint64        // Cut == "max-iterations": limits.max-iterations (reached early in the plan)
 	MidSleepUs    []int         // per body (cyclic): sleep between snapshot and read-end
 }
 
 func (c runCase) config() planCfg {
 	p := planCfg{
 		Scenario: ptr(vlib.ScenarioName),
-		Limits: limitsCfg{MaxDuration: ptr(c.maxDuration()), Concurrency: ptr(c.Concurrency), MaxIterations: ptr(uint64(0)),
+		Limits: limitsCfg{MaxDuration: ptr(c.maxDuration()), Concurrency: ptr(c.Concurrency), MaxIterations: ptr(c.Limit),
 			IgnoreDropped: ptr(true)},
 		Default: stageCfg{Jitter: ptr(0.0), Distribution: ptr("none")},
 	}
@@ -125,8 +126,11 @@ func genRun(t *rapid.T) runCase {
 		c.Stages = append(c.Stages, s)
 	}
 	// some runs are cut short strictly inside the plan: by limits.max-duration or by cancelling the run
-	c.Cut = rapid.SampledFrom([]string{"", "", "", "max-duration", "cancel"}).Draw(t, "cut")
-	if c.Cut != "" {
+	c.Cut = rapid.SampledFrom([]string{"", "", "", "max-duration", "cancel", "max-iterations"}).Draw(t, "cut")
+	if c.Cut == "max-iterations" {
+		// the iteration limit ends the run, usually within the first stages
+		c.Limit = uint64(rapid.IntRange(1, 12).Draw(t, "maxIterations"))
+	} else if c.Cut != "" {
 		var total time.Duration
 		for _, s := range c.Stages {
 			total += s.Duration
